@@ -1,4 +1,5 @@
 import AdfObdd.Drv.Bdd
+import AdfObdd.Drv.Adf
 /-! Model driver: one request per line in, the request and the model's answers out.
     `= …` is the algorithmic model's answer, `~ …` the executable specification's. Lines
     starting with `=`, `~` (the implementation's answers) and `#` are skipped. -/
@@ -6,6 +7,7 @@ open Drv
 
 structure DS where
   bdd : BddSt := {}
+  adf : AdfSt := {}
   feats : List String := []
 
 def step (d : DS) (l : String) : List String × DS :=
@@ -18,6 +20,9 @@ def step (d : DS) (l : String) : List String × DS :=
   | _ =>
   match bddStep d.bdd l ws with
   | some (out, b) => (out, { d with bdd := b })
+  | none =>
+  match adfStep d.adf l ws with
+  | some (out, a) => (out, { d with adf := a })
   | none => ([l, "= unknown-request"], d)
 
 partial def loop (h : IO.FS.Stream) (out : IO.FS.Stream) (d : DS) : IO Unit := do
